@@ -169,7 +169,24 @@ def rule_R4(ctx, prj):
                      f"the closing brace {'falls outside the block (span ends one token early)' if not b.endswith('+2') else 'is followed by a foreign token inside the block'}")
         else:
             raise AnalysisError(f"{gb.site(c)}: range construction {unparse(c)[:60]} not understood")
-    _balanced(ctx, prj, prj.func("codelimit.common.token_utils:get_balanced_symbol_token_indices"))
+    from ..absint import Unknown
+    from .. import brackets_eval
+    bal = prj.func(brackets_eval.QUAL)
+    try:
+        n, div = brackets_eval.explore(prj)
+        if div is None:
+            ctx.ok("R4", bal.site(), f"balanced matching evaluated on {n} sequences over (opening, closing, other) up to length 4: the opening symbol pushes, "
+                                     f"the closing one pops and records (opening index, closing index), inner pairs iff extract_nested, outermost always")
+            ctx.ok("R4", bal.site(), "balanced matching: pairs as the reference matcher")
+            ctx.ok("R4", bal.site(), "balanced matching: nesting flag as the reference matcher")
+        else:
+            seq, nested, got, want = div
+            ctx.viol("R4", "get_balanced_symbol_token_indices/pairs", bal.site(),
+                     f"for the token sequence {seq!r} (O opening, C closing, X other; extract_nested={nested}) the function "
+                     f"{got if isinstance(got, str) else 'returns ' + str(got)}; required {want}")
+    except Unknown as e:
+        ctx.info(f"balanced matching not evaluable ({e}); structural reading")
+        _balanced(ctx, prj, bal)
     py = prj.maybe_func("codelimit.languages.Python:Python.extract_blocks")
     if py is not None:
         _python_suites(ctx, prj, py)
